@@ -6,7 +6,8 @@ states a received ping resets from, where failure events land, whether the pump 
 is finite, so one-step facts are kernel evaluations over the WHOLE space, lifted to fault scripts of any length by induction.
 The FULL statement ("after ANY finite fault pattern, a healthy network leads back to CONNECTED, and the pump never dies")
 holds on the current tree (`recovery_after_every_script`, `pump_immortal`) since the `fix:` commits for D8a (a reset inside
-`_connect` killed the pump) and D8b (a discovery during a blackout parked the manager in ERROR_SPA_NOT_FOUND for good);
+`_connect` killed the pump), D8b (a discovery during a blackout parked the manager in ERROR_SPA_NOT_FOUND for good) and D8c (the
+late failure report of a connection attempt abandoned by a reset parked it in ERROR_NEEDS_ATTENTION without a spa);
   * `Stuck` (nothing can move the manager any more) is kept as the decidable obstruction: `never_stuck` shows no coherent record
     is stuck, `stuck_never_recovers` that the notion is tight;
   * the time bound is the sum of bounds proved elsewhere (C06, C15, C01), as a numeral from the generated timing tables.
@@ -120,6 +121,15 @@ theorem reset_in_locate_recovers : ∀ s ∈ allR, Coherent s = true → s.pump 
 in that window would leave IDLE with descriptors - a record neither guard of the pump acts on -/
 example : let s : R := { (resetR { init with st := stateOnLocatingStarted }) with descriptors := true }
     s.st = "IDLE" ∧ Stuck s = true := by decide +kernel
+
+/-- **a connection attempt that a reset has abandoned cannot move the manager** (it holds since the `fix:` commit that guards
+the retry-exceeded branch by "there is a spa"): its late retry-exceeded report leaves every record without a spa unchanged -/
+theorem abandoned_attempt_is_ignored : ∀ s ∈ allR, s.spaAlive = false → step s .retryExceeded = s := by decide +kernel
+
+/-- what the guard buys: without it the late report of an attempt abandoned by a reset puts an IDLE manager without a spa into
+the retry-exceeded state, an incoherent record that is stuck (only a ping of a live spa leaves it) -/
+example : let s : R := { (resetR init) with st := stateOnRetryExceeded }
+    Coherent s = false ∧ Stuck s = true ∧ connected (run s healthySeq) = false := by decide +kernel
 
 /-- **an unreachable spa is reported**: from CONNECTED, a ping that stays unanswered beyond the not-responding timeout
 takes the manager out of CONNECTED -/
